@@ -231,19 +231,22 @@ impl FixedMethod {
 
         // Zo-fola insertion
         if value == "\u{09CD}\u{09AF}" {
+            // With old style Kar ordering, the Zo-fola goes before the left standing Kar.
+            let kar = if config.get_fixed_old_kar_order() && is_left_standing_kar(rmc) {
+                self.buffer.pop()
+            } else {
+                None
+            };
             // Check if র is not a part of a Ro-fola, if its not then add an ZWJ before
             // the Zo-fola to have the র‍্য form.
-            if rmc == B_R && self.buffer.chars().rev().nth(1).unwrap_or_default() != B_HASANTA {
+            let mut chars = self.buffer.chars().rev();
+            if chars.next() == Some(B_R) && chars.next().unwrap_or_default() != B_HASANTA {
                 self.buffer.push(ZWJ);
             }
-            if config.get_fixed_old_kar_order() && is_left_standing_kar(rmc) {
-                if let Some(kar) = self.buffer.pop() {
-                    self.buffer.push_str(value);
-                    self.buffer.push(kar);
-                    return;
-                }
-            }
             self.buffer.push_str(value);
+            if let Some(kar) = kar {
+                self.buffer.push(kar);
+            }
             return;
         }
 
